@@ -760,6 +760,7 @@ pub fn sweep(ctx: &Ctx, plan: &SweepPlan, rep: &mut Report, checker: &Checker) -
         what: "every string of 1..=5 [6] characters over an 11-character alphabet with 2/3/4-byte and case-mapping-hazard characters; a multi-byte character inserted at / replacing every byte offset of 7 base texts up to 100 bytes, and the prefixes ending there".into() }));
     // histories of two calls on the stateless entry points
     spaces.push(Box::new(PairSpace { label: "E3.pairs".into(), items: history_menu() }));
+    spaces.push(Box::new(NearPairSpace { label: "E3.near_pairs".into() }));
     // one identifier of every canonical length (fixed-size buffers, length fast paths)
     spaces.push(Box::new(ListSpace { label: "E2.ladder".into(), items: with_underscores(length_ladder(if ctx.quick() { 300 } else { 1100 }, !plan.langid_only)),
         what: "for every byte length up to 300 [1100]: identifiers of exactly that canonical length (4 language-id prefixes filled with distinct unsorted variants; for locales also with the length spent on attributes, keyword values, tfield values, tlang variants and private tags); each also with '_' as its first, as its last and as every separator".into() }));
@@ -769,6 +770,8 @@ pub fn sweep(ctx: &Ctx, plan: &SweepPlan, rep: &mut Report, checker: &Checker) -
         spaces.push(Box::new(ListSpace { label: "E2.count".into(), items: super::counts::count_inputs(n_max, rep_max, !plan.langid_only),
             what: format!("count ladder: for every list position (variants, tlang variants, attributes, keyword values, keywords, tfield values, tfields, private tags) and every n in 0..={} a list of n distinct generated elements in the orders ascending / descending / every rotation / a fixed scramble, and (n <= {}) with a second copy of element i inserted at position j for every i, j; the asc/desc/scramble shapes also in UPPER case with '_' and with a single '_'", n_max, rep_max) }));
     }
+    spaces.push(Box::new(ListSpace { label: "E2.count.wide".into(), items: super::counts::wide_inputs(ctx.quick(), !plan.langid_only),
+        what: "wide counts: every list position with n = 2^k - 1, 2^k, 2^k + 1 elements for 2^k = 64 .. 1024 [.. 65536] (a counter kept in a u8 / u16, a 1 KiB / 64 KiB cap): ascending, descending, descending with a repeat at the end, UPPER case with '_'; variant lists also followed by a script / region / language (ill-formed)".into() }));
     // order hazards: subtag lists on which the lexicographic order differs from the integer,
     // length-first and reversed orders
     spaces.push(Box::new(ListSpace { label: "E4.order".into(), items: order_inputs(),
